@@ -265,6 +265,15 @@ func (p *provider) updateRuleSet(oldObj, newObj any) {
 	newRS := newObj.(*v1alpha4.RuleSet) // nolint: forcetypeassert
 	oldRS := oldObj.(*v1alpha4.RuleSet) // nolint: forcetypeassert
 
+	if oldRS.UID != newRS.UID {
+		// the resource has been deleted and a new one with the same name has been created while the
+		// watch was interrupted. The rule set loaded from the old resource is identified by the old UID.
+		p.deleteRuleSet(oldRS)
+		p.addRuleSet(newRS)
+
+		return
+	}
+
 	if oldRS.Generation == newRS.Generation {
 		// we're only interested in Spec updates. Changes in metadata or status are not of relevance
 		return
